@@ -13,7 +13,8 @@ Row = (cls, act, role)
   role 1 self-insert on <any>; 2 backward-delete-char on backspace (c-h);
        3 delete-char on delete / c-delete; 4 undo handler bound to 'u' (vi);
        5 undo handler bound to c-_ or c-x c-u (emacs);
-       6 Vi multiple-cursor insert on <any>; 0 anything else
+       6 Vi multiple-cursor insert on <any>; 7 the cursor-position-report binding;
+       8 kill-line on c-k; 9 kill-word on escape d; 10 yank on c-y; 0 anything else
 Fail closed (exit 2) on anything unexpected.
 """
 import hashlib
@@ -91,6 +92,14 @@ def row_of(binding):
         role = 5
     elif keys == (Keys.Any,) and getattr(h, "__name__", "") == "_insert_text_multiple_cursors":
         role = 6
+    elif keys == (Keys.CPRResponse,):
+        role = 7
+    elif h is get_by_name("kill-line").handler and keys == (Keys.ControlK,):
+        role = 8
+    elif h is get_by_name("kill-word").handler and keys == (Keys.Escape, "d"):
+        role = 9
+    elif h is get_by_name("yank").handler and keys == (Keys.ControlY,):
+        role = 10
     name = "%s.%s" % (getattr(h, "__module__", "?").replace("prompt_toolkit.", ""), getattr(h, "__qualname__", "?"))
     return (cls, act, role), " ".join(str(key_name(k)) for k in keys), name
 
